@@ -44,7 +44,7 @@ Proof.
 Qed.
 Print Assumptions C08_still_serves.
 
-Require Import RV.Proofs.SitesFacts RV.Gen.Sites RV.Model.SiteMap.
+Require Import RV.Proofs.SitesPanic RV.Gen.Sites RV.Model.SiteMap.
 
 (* the model has the panics the code has: every panic-capable expression (unwrap, expect, assert,
    panic!, range slice) in today's scan of the modelled files is in the reviewed site map *)
@@ -57,7 +57,7 @@ Print Assumptions C08_panic_sites_reviewed.
    (private constants, bounds, unit factors; the files are SiteMap.files_C08) are today the ones the
    model was written against. Gen/Sites.v num_literals is regenerated from /repo on every run; a
    changed, added or removed number in a modelled function breaks this obligation ---- *)
-Require RV.Gen.Sites RV.Model.SiteMap RV.Proofs.SitesFacts.
+Require RV.Gen.Sites RV.Model.SiteMap RV.Proofs.SitesLits.
 Theorem C08_literals_reviewed : RV.Model.SiteMap.literals_ok RV.Model.SiteMap.files_C08.
-Proof. apply RV.Proofs.SitesFacts.literals_okb_sound. vm_compute. reflexivity. Qed.
+Proof. apply RV.Proofs.SitesLits.literals_okb_sound. vm_compute. reflexivity. Qed.
 Print Assumptions C08_literals_reviewed.
